@@ -11,6 +11,7 @@ CONSTANTS
   BlockSize = 8
   Pos <- MCPos
   TheRepo = "r1"
-  Contents <- MCExportQuick
+  Contents <- MCContents
+  SpaceSel = "genquick"
 INVARIANT Emit
 CHECK_DEADLOCK FALSE
